@@ -101,10 +101,12 @@ Fixpoint inline_fuel (fuel : nat) (m : macro_table) (ts : list dtree) : option (
       let d := tree_dir t in
       let head :=
         if kind_eqb (d_kind d) KPaste then
-          match macro_lookup m (named d (bs "Name")) with
-          | Some mt => inline_fuel f m (tree_kids mt)
-          | None => Some [t]                     (* a PASTE of nothing stays where it is *)
-          end
+          (* a PASTE of nothing, and a PASTE that carries an annotation (refused as it stands), stay where they are *)
+          if negb (beq (d_annot d) []) then Some [t]
+          else match macro_lookup m (named d (bs "Name")) with
+               | Some mt => inline_fuel f m (tree_kids mt)
+               | None => Some [t]
+               end
         else
           match inline_fuel f m (tree_kids t) with
           | Some k => Some [DNode d k]
@@ -117,8 +119,7 @@ Fixpoint inline_fuel (fuel : nat) (m : macro_table) (ts : list dtree) : option (
     end
   end.
 
-(* the fuel is enough whenever the document is accepted (MacroProofs.paste_inline: the
-   expansion with this fuel succeeds, and inline_fuel follows the expansion step by step) *)
+(* the fuel is enough whenever the recursion check has passed (MacroProofs.inline_total) *)
 Definition inline (m : macro_table) (ts : list dtree) : list dtree :=
   match inline_fuel (fuel_needed m ts) m ts with Some x => x | None => [] end.
 
@@ -127,11 +128,9 @@ Definition inlined_document (ts : list dtree) : list dtree :=
   inline (macros_of ts) (strip_macros ts).
 
 (* the start of the expansion and what `expand` returns from its final state *)
-Definition pstate0 : pstate := {| ps_frames := []; ps_roots := []; ps_enums := [] |}.
+Definition pstate0 : pstate := {| ps_frames := []; ps_roots := [] |}.
 Definition forest_of_pstate (p : pstate) : list dtree :=
   rev (close_all (List.length (ps_frames p)) (ps_frames p) (ps_roots p)).
-Definition same_ctx (p q : pstate) : Prop :=
-  ps_frames p = ps_frames q /\ ps_roots p = ps_roots q.
 
 (* the fuel `expand` gives to the recursion check *)
 Definition check_fuel (m : macro_table) : nat :=
